@@ -560,7 +560,7 @@ func (r *ruleState) txStep(tr *TxRec, pre, post *tables.Tables) {
 				}
 			}
 		} else if t != nil && !told {
-			s.violate("T7.unrouted_with_task", P("C08"), "promise", "unrouted promise created with a task", fmt.Sprintf("%s / %s", q, t))
+			s.violate("T7.unrouted_with_task", P("C08", "C19"), "promise", "unrouted promise created with a task", fmt.Sprintf("%s / %s", q, t))
 		}
 	}
 	for _, tid := range tables.SortedKeys(post.Tasks) {
